@@ -579,8 +579,15 @@ impl<'a> ExpandedSelection<'a> {
         for (type_id, ty) in self.types() {
             let struct_name = Ident::new(&ty.name, Span::call_site());
 
-            // If the type is aliased, stop here.
-            if let Some(alias) = self.aliases.iter().find(|alias| alias.struct_id == type_id) {
+            let aliases: Vec<&TypeAlias<'_>> = self
+                .aliases
+                .iter()
+                .filter(|alias| alias.struct_id == type_id)
+                .collect();
+            let has_fields = self.fields.iter().any(|field| field.struct_id == type_id);
+
+            // If the type is aliased and nothing else contributes to it, stop here.
+            if let ([alias], false) = (aliases.as_slice(), has_fields) {
                 let fragment_name = Ident::new(alias.name, Span::call_site());
                 let fragment_name = if alias.boxed {
                     quote!(Box<#fragment_name>)
@@ -594,11 +601,25 @@ impl<'a> ExpandedSelection<'a> {
                 continue;
             }
 
+            // Otherwise (several selections on the same variant) an aliased fragment is one more
+            // flattened member of the struct.
+            let alias_fields = aliases.iter().map(|alias| {
+                let field_name = Ident::new(&alias.name.to_snake_case(), Span::call_site());
+                let fragment_name = Ident::new(alias.name, Span::call_site());
+                let field_type = if alias.boxed {
+                    quote!(Box<#fragment_name>)
+                } else {
+                    quote!(#fragment_name)
+                };
+                quote!(#[serde(flatten)] pub #field_name: #field_type)
+            });
+
             let mut fields = self
                 .fields
                 .iter()
                 .filter(|field| field.struct_id == type_id)
                 .filter_map(|field| field.render(self.options))
+                .chain(alias_fields)
                 .peekable();
 
             let on_variants: Vec<TokenStream> = self
